@@ -156,6 +156,9 @@ func (m *PublishMessage) Decode(src []byte) (int, error) {
 		return total, err
 	}
 
+	// The packet ends where the fixed header says it ends.
+	src = src[:total+int(m.remlen)]
+
 	n := 0
 
 	m.topic, n, err = readLPBytes(src[total:])
